@@ -17,7 +17,7 @@ from AegeanTools.catalogs import save_catalog, load_table, table_to_source_list
 from AegeanTools.models import ComponentSource, IslandSource
 from AegeanTools.source_finder import SourceFinder
 from vlib import fields, refs, skyimg
-from vlib.core import REPO, ROOT, HarnessError, Res, enc
+from vlib.core import REPO, ROOT, HarnessError, Res, enc, workdir
 
 PROP = "C03"
 SHARDS = {"quick": 16, "thorough": 16}
@@ -297,7 +297,7 @@ def check_case(c):
     F = fields.build_field(c["field"])
     what = "%s (noise=%s, %d truth sources, islandflux=%s max_summits=%s stage=%d regroup=%s)" % (
         c["mode"], c["field"]["noise"], len(F["truth"]), c["islandflux"], c["max_summits"], c["stage"], c["regroup"])
-    d = tempfile.mkdtemp(prefix="c03_")
+    d = workdir("c03_")
     try:
         path = os.path.join(d, "im.fits")
         skyimg.write_fits(path, F["img"], F["hdr"])
